@@ -114,6 +114,8 @@ def nontrivial(sc, obs):
 def tags(sc, obs):
     w = sc.lines[0].split()
     if w[1] == "net":
+        if sc.meta.get("oq"):
+            yield "stream:outside-quantifier(tie only)"
         yield "kind:network"
         n = int(w[2])
         for l, o in zip(sc.lines[1:], obs[1:]):
